@@ -67,6 +67,27 @@ theorem join_names (r : RVs α) (h : WF r) (inds : List String) (f : Fill α) (r
     (hj : join r inds f = .ok res) : (names res.rvs).Perm (names r) :=
   join_names_perm' (singles_of_square h.square) hj
 
+/-- Joining no variables returns the collection unchanged (and no new parameters), in every mode. -/
+theorem join_empty (r : RVs α) (f : Fill α) : join r [] f = .ok ⟨r, []⟩ :=
+  join_nil r f
+
+/-- A successful `join` of at least one variable puts exactly the joined names (in their original
+    order) into one block of the result. -/
+theorem join_block (r : RVs α) (h : WF r) (inds : List String) (f : Fill α) (res : JoinResult α)
+    (hj : join r inds f = .ok res) (hne : inds ≠ []) :
+    ∃ jd ∈ res.rvs, jd.joint = true ∧ jd.names = (names r).filter (inds.contains ·) := by
+  obtain ⟨hall, j0, rest, hg, hres⟩ := join_ok hj hne
+  obtain ⟨a, hai⟩ : ∃ a, a ∈ inds := by
+    cases inds with
+    | nil => exact absurd rfl hne
+    | cons a t => exact ⟨a, List.mem_cons_self⟩
+  have ha : a ∈ names r := hall a hai
+  have hmem := jd_mem_of_ind (r := r) inds
+    ⟨names (getitem r inds), j0.level, true, (getitem r inds).flatMap (·.mean),
+      (joinMatrix (getitem r inds) f).1⟩ ha hai
+  rw [← hres] at hmem
+  exact ⟨_, hmem, rfl, getitem_names' r (singles_of_square h.square) inds⟩
+
 /-- Every block is a contiguous run of the name list. -/
 theorem blocks_contiguous (r : RVs α) : ∀ d ∈ r, d.names <:+: names r := by
   intro d hd
